@@ -42,6 +42,9 @@ func mePairStates() []mePairState {
 		// no recovery window: current B, delayed switch to A pending
 		{"switch-pending", meCfg{Init: []string{"A", "B"}, R: 0, D: 4 * ms},
 			[]string{"avail(B,1)", "avail(A,1)"}},
+		// no recovery window, no delay, everything available: overlapping outage reports
+		{"all-available-plain", meCfg{Init: []string{"A", "B", "C"}, R: 0, D: 0},
+			[]string{"avail(A,1)", "avail(B,1)", "avail(C,1)"}},
 		// fresh: every endpoint inside its initial recovery window
 		{"fresh", meCfg{Init: []string{"A", "B", "C"}, R: 10 * ms, D: 4 * ms}, nil},
 	}
